@@ -87,7 +87,8 @@ MANIFEST = {
     "design_ref": "5/C17",
 }
 MODULES = ["PrimaiteModel.Props.C17", "PrimaiteModel.Props.C17Gen", "PrimaiteModel.Props.C17Run", "PrimaiteModel.Props.C17Recv", "PrimaiteModel.Props.C17Ftp",
-           "PrimaiteModel.Props.C17Client", "PrimaiteModel.Props.C17Tick", "PrimaiteModel.Props.C17Bot", "PrimaiteModel.Lemmas.DatabaseReach"]
+           "PrimaiteModel.Props.C17Client", "PrimaiteModel.Props.C17Tick", "PrimaiteModel.Props.C17Bot", "PrimaiteModel.Props.C17BotModel", "PrimaiteModel.Props.C17Sql",
+           "PrimaiteModel.Lemmas.DatabaseReach"]
 EXE = "drv_c17"
 
 
@@ -138,6 +139,32 @@ def _transfer_branch(op: str, prev_digest: str, blocks: dict) -> str:
     return "reply-blocked-no-copy(F-33 path)" if blocks.get(1) else "ok-fresh"
 
 
+def _sql_counter_model(ctx: Ctx) -> None:
+    """Counter-model search for the translated `_process_sql` (second shift): the whole domain the method reads (120 cells) is
+    evaluated on the translated function and on the model by `lake env lean Props/C17SqlCm.lean`; it proves nothing - when
+    `C17_tr_process_sql` checks it finds nothing; when a `C17_gen_process_sql_*` / `C17_tr_process_sql` is refuted it names the server."""
+    name = "model:translated _process_sql agrees with the model on every cell of its domain (counter-model search, 120 cells)"
+    try:
+        import subprocess
+        from harness.lib.core import LEAN
+        if "processSql" in x_tr.FAILED:
+            ctx.oblige(name, "correspondence", False, "not translated: " + x_tr.FAILED["processSql"])
+            return
+        res = subprocess.run(["lake", "env", "lean", "PrimaiteModel/Props/C17SqlCm.lean"], cwd=str(LEAN), stdout=subprocess.PIPE,
+                             stderr=subprocess.STDOUT, text=True, timeout=300)
+        out = res.stdout.splitlines()
+        found = [l for l in out if l.startswith("counter-model ")]
+        tally = [l for l in out if l.startswith("cells=")]
+        ctx.oblige(name, "correspondence", res.returncode == 0 and not found and tally == ["cells=120 differing=0"],
+                   " || ".join(found)[:3000] or res.stdout[-600:])
+        for l in found[:6]:
+            ctx.notes.append("counter-model of the translated _process_sql: " + l[:600])
+        if tally:
+            ctx.notes.append("counter-model search _process_sql: " + tally[0])
+    except Exception as e:  # noqa: BLE001
+        ctx.oblige(name, "correspondence", False, f"{type(e).__name__}: {e}")
+
+
 def replay(rec: dict) -> bool:
     with lean_lock():
         from harness.lib.core import lake_build
@@ -176,6 +203,7 @@ def run(ctx: Ctx):
         for mname, lname, _ in x_tick.FTPC_ROOTS:   # the FTP client's tick and countdown-loading methods
             ctx.oblige(f"translate-tick:ftpc:{mname}", "extractor", "ftpc:" + mname not in x_tick.FAILED, x_tick.FAILED.get("ftpc:" + mname, ""))
         ctx.prove(MODULES, exes=[EXE], clean=False, leanchecker=ctx.thorough)
+        _sql_counter_model(ctx)
     ctx.cov["rule"] = ("case = (number of clients 1..4, session limit, passwords, durations, ransomware presence, op sequence over "
                        "connect / handle+raw+native query / disconnect / forged+foreign ids / execute / uninstall+install / "
                        "service requests / backup / restore / file damage / node power / FTP server stop / per-direction ACL blocks / "
